@@ -32,6 +32,9 @@ ASSUMPTIONS = [
 EXHAUSTIVE_NOTE = "core: each gate type x fan-in 1..4 x both styles as single-gate circuits; each constant as output; one 3-pin blackbox under every connected/unconnected pattern (2^3) x both styles"
 EXAMPLES = {"quick": 350, "thorough": 8000}
 
+LONG = ["u0_core_alu_adder_stage3_carry_lookahead_unit_generate_propagate_bit_17_net_4821_q",
+        "top_cpu0_decode_pipeline_register_bank_1_write_enable_gated_clock_domain_b_n74_x",
+        "p" * 76, "q" * 77, "r" * 101, "\\long-escaped-" + "z" * 70]
 VNAMES = [n for n in S.BENIGN if n not in ("buf", "and", "or", "xor", "not", "nand", "nor", "xnor", "input", "output", "wire", "assign", "module", "endmodule")]
 HELPERLIKE = []
 for _op in ("and", "or", "xor"):
@@ -72,6 +75,14 @@ def core(ctx):
         for beh in (False, True):
             yield {"spec": {"name": "top", "nodes": nodes, "bbtypes": [["ff", ["d", "clk"], ["q"]]], "insts": [["u0", 0, conns]]},
                    "beh": beh, "route": "string"}
+    # very wide gates (assign style nests one operator per operand)
+    for width in (40, 700):
+        for t in ("and", "xnor"):
+            nodes = [[f"i{j}", "input", [], False] for j in range(width)]
+            nodes.append(["g", t, [f"i{j}" for j in range(width)], True])
+            for beh in (False, True):
+                yield {"spec": {"name": "wide", "nodes": nodes, "bbtypes": [], "insts": []}, "beh": beh, "route": "string",
+                       "tables": [(0x9E3779B97F4A7C15 * (i + 1)) & ((1 << 64) - 1) for i in range(16)]}
     yield {"spec": {"name": "c", "nodes": [["a", "input", [], False], ["g", "not", ["a"], True]], "bbtypes": [], "insts": []},
            "beh": False, "route": "bad_suffix"}
     yield {"spec": {"name": "c", "nodes": [["a", "input", [], False], ["g", "not", ["a"], True]], "bbtypes": [], "insts": []},
@@ -82,6 +93,8 @@ def core(ctx):
 def _case(draw, ctx):
     esc = draw(st.integers(0, 2)) == 0
     pools = (VNAMES, ESC) if esc else (VNAMES,)
+    if draw(st.integers(0, 5)) == 0:
+        pools = (VNAMES[:12], LONG)
     dense = False
     if draw(st.integers(0, 3)) == 0:
         # nets named like the gates the reader synthesises for assign expressions
